@@ -177,6 +177,8 @@ namespace GeographicLib {
       throw GeographicErr("Invalid ID");
     if (_nNmodels < 1)
       throw GeographicErr("NumModels must be positive");
+    if (_nNmodels > 1000000)    // Also prevents overflow of _nNmodels + 1
+      throw GeographicErr("NumModels is too large");
     if (!(_nNconstants == 0 || _nNconstants == 1))
       throw GeographicErr("NumConstants must be 0 or 1");
     if (!(_dt0 > 0)) {
